@@ -3,6 +3,12 @@ import ParryModel.C18.Model
 import ParryModel.C18.Theorems2
 import ParryModel.C18.Theorems3
 import ParryModel.C18.Theorems4
+import ParryModel.C18.Theorems5
+import ParryModel.C18.Theorems6
+import ParryModel.C18.Theorems7
+import ParryModel.C18.Theorems8
+import ParryModel.C18.Theorems9
+import ParryModel.C18.Theorems10
 /-!
 # C18 theorems: `clip` and the VHACD loop partition their input, for every plane, oracle, depth and voxel set;
 the number of parts is at most `2^depth ≤ 4 · max_convex_hulls`.
